@@ -43,6 +43,7 @@ type stressViolation struct {
 type stressResult struct {
 	asked                                                *sync.Map
 	Sent, Answered, Keyed, ServFail, Timeouts, Abandoned int64
+	LateAnswers                                          int64 // stream answers that arrived after the harness had moved on to the next batch
 	CacheHits                                            int64 // responses whose serial was issued before the query was sent... (approx: serial seen before)
 	Violations                                           []stressViolation
 	Proc                                                 *proxyproc.Result
@@ -311,6 +312,7 @@ func stressWorker(b *Bed, listener string, w int, r *gen.R, o *stressOpts, ups [
 		}
 		defer c.Close()
 		seen := 0
+		pending := map[uint16]*stressQ{} // sent on this socket, not answered within the harness' wait
 		for i := 0; i < o.PerWorker; i += window {
 			var batch []*stressQ
 			for k := 0; k < window && i+k < o.PerWorker; k++ {
@@ -337,8 +339,21 @@ func stressWorker(b *Bed, listener string, w int, r *gen.R, o *stressOpts, ups [
 						break
 					}
 				}
+				if !matched && len(p.Data) >= 2 {
+					if old := pending[uint16(p.Data[0])<<8|uint16(p.Data[1])]; old != nil { // late, not foreign
+						delete(pending, old.id)
+						judge(listener, old, p.Data, p.T)
+						atomic.AddInt64(&res.LateAnswers, 1)
+						continue
+					}
+				}
 				if !matched {
 					judge(listener, &stressQ{q: dns.Question{Name: "<no matching query in flight>"}, id: 0xFFFF, wire: nil}, p.Data, p.T)
+				}
+			}
+			for _, sq := range batch {
+				if !got[sq.id] {
+					pending[sq.id] = sq
 				}
 			}
 			seen = len(pk)
@@ -357,6 +372,7 @@ func stressWorker(b *Bed, listener string, w int, r *gen.R, o *stressOpts, ups [
 			}
 		}()
 		silentBatches := 0
+		pending := map[uint16]*stressQ{} // sent on the current connection, not answered within the harness' wait
 		for i := 0; i < o.PerWorker; i += window {
 			if silentBatches >= 3 { // three batches in a row without a single matching response: the 9 s waits add nothing
 				break
@@ -369,6 +385,7 @@ func stressWorker(b *Bed, listener string, w int, r *gen.R, o *stressOpts, ups [
 					continue
 				}
 				seen = 0
+				pending = map[uint16]*stressQ{}
 			}
 			var batch []*stressQ
 			for k := 0; k < window && i+k < o.PerWorker; k++ {
@@ -399,8 +416,23 @@ func stressWorker(b *Bed, listener string, w int, r *gen.R, o *stressOpts, ups [
 						break
 					}
 				}
+				if !matched && len(p.Data) >= 2 {
+					// the answer to a query of an earlier batch on this connection that the harness had
+					// stopped waiting for (the client kept its connection open; late is not foreign)
+					if old := pending[uint16(p.Data[0])<<8|uint16(p.Data[1])]; old != nil {
+						delete(pending, old.id)
+						judge(listener, old, p.Data, p.T)
+						atomic.AddInt64(&res.LateAnswers, 1)
+						continue
+					}
+				}
 				if !matched {
 					judge(listener, &stressQ{q: dns.Question{Name: "<no matching query in flight>"}, id: 0xFFFF}, p.Data, p.T)
+				}
+			}
+			for _, sq := range batch {
+				if !got[sq.id] {
+					pending[sq.id] = sq
 				}
 			}
 			seen = len(fr)
